@@ -67,6 +67,13 @@ def _gen_list(r, wrapper_free, nv, shared_blocks=None):
 
     blocks = shared_blocks if shared_blocks is not None else []
 
+    def size(t):
+        if t[0] == "n":
+            return 1 + sum(size(x) for x in t[2])
+        if t[0] == "t":
+            return sum(size(x) for x in t[1])
+        return 1
+
     def expr(d, maxd):
         if blocks and r.random() < 0.35:
             b = r.choice(blocks)
@@ -97,11 +104,22 @@ def _gen_list(r, wrapper_free, nv, shared_blocks=None):
         return ["n", "Call", [["n", "Variable", [["s", r.choice(["f", "g", "h"])]]],
                               ["t", [expr(d + 1, maxd) for _ in range(r.randint(1, 2))]]]]
 
+    # blocks nest earlier blocks, so sizes are capped (they would grow exponentially)
     for _ in range(r.randint(1, 4)):
-        blocks.append(expr(1, r.choice([2, 3])))
+        for _try in range(6):
+            b = expr(1, r.choice([2, 3]))
+            if size(b) <= 30:
+                blocks.append(b)
+                break
     out = []
     for _ in range(r.randint(1, 5)):
-        out.append(expr(0, r.choice([2, 3, 4])))
+        for _try in range(8):
+            t = expr(0, r.choice([2, 3, 4]))
+            if size(t) <= 120:
+                break
+        else:
+            t = leaf()
+        out.append(t)
 
     if not wrapper_free:
         def prewrap(t, d=0):
@@ -549,8 +567,9 @@ def execute(scenario, open_sigs):
                     for c in L["canon"]:
                         op_occurrences(c, occ)
                     allowance = {}
-                    for c in occ:
-                        allowance.setdefault(deep(c), set()).add(r1(c))
+                    occ_deep = [deep(c) for c in occ]
+                    for c, dk in zip(occ, occ_deep):
+                        allowance.setdefault(dk, set()).add(r1(c))
                     counts = {}
                     for cpt in allcomps:
                         if cpt.handler in ("map_common_subexpression",
@@ -572,10 +591,11 @@ def execute(scenario, open_sigs):
                                   "inputs": [str(c)[:300] for c in L["canon"]][:5]})
                             break
                     # reach: a repeated key nested inside another repeated key
-                    rep = {d for d, s in allowance.items()
-                           if sum(1 for c in occ if deep(c) == d) > 1}
-                    for c in occ:
-                        if deep(c) in rep:
+                    from collections import Counter
+                    cnt = Counter(occ_deep)
+                    rep = {d for d, n in cnt.items() if n > 1}
+                    for c, dk in zip(occ, occ_deep):
+                        if dk in rep and not nested and len(occ) <= 200:
                             inner = []
                             for f in c[2]:
                                 op_occurrences(f, inner)
